@@ -730,11 +730,27 @@ class Unit:
             csrc = src
             cont = None
             want = norm(target)
-            for it in src.items:
-                if it.kind == kind and header_text(it) == want:
-                    cont = it
-            if cont is None:
+            cands = [it for it in src.items if it.kind == kind and header_text(it) == want]
+            if not cands:
                 raise LostAnchor(f"{rel}: {kind} `{target}` not found")
+            cont = cands[-1]
+            if len(cands) > 1:
+                # several blocks with the same header (e.g. two `impl<Db> WriteBatch<Db>`): take the one that holds the first
+                # member the directive block asks for
+                first = None
+                for q in range(i + 1, len(tl)):
+                    st = tl[q].strip()
+                    if st.startswith("//@ member "):
+                        first = st.split()[2]
+                        break
+                    if st.startswith("//@ end"):
+                        break
+                if first is not None:
+                    for c in cands:
+                        names = [m.name for m in scan_items(src.ct, c.body_open + 1, c.body_close) if m.kind == "fn"]
+                        if first in names:
+                            cont = c
+                            break
         return self.container(tl, i + 1, csrc, cont, kind, rel, target)
 
     def find(self, items, kind, name, src):
